@@ -10,7 +10,8 @@ ORACLE         the property itself on the implementation, no model: see oracle_h
 
 Operation encoding (JSON):  ['compute', name, f, mode, vals] f in FUNCS, mode 0 cycle / 1 augmented
                             ['add', name, vals]   vals: ints or None (nan)
-                            ['timings'] ['pick', [cond, ..]] ['chain'] ['export', which, [cond, ..]]
+                            ['timings'] ['pick', [cond, ..]] (+ optional 1: a single condition passed as a bare string)
+                            ['chain'] ['export', which, [cond, ..]]
                             which: 0 all, 1 subset=True, 2 conditions=, 3 both (must be rejected)
 """
 import glob
@@ -104,7 +105,8 @@ def apply_op(C, op):
                 C.compute_cycle_timings()
                 return ['ok']
             if kind == 'pick':
-                C.pick_cycle_subset(list(op[1]))
+                # a single condition may be given as a bare string (op[2] = 1)
+                C.pick_cycle_subset(op[1][0] if len(op) > 2 and op[2] and len(op[1]) == 1 else list(op[1]))
                 return ['ok']
             if kind == 'chain':
                 C.compute_chain_timings()
@@ -353,9 +355,9 @@ def gen_ops(rng, case, maxlen=12):
             table['start_sample'] = [a for a, b in segs]
             table['stop_sample'] = [b - 1 for a, b in segs]
             table['duration'] = [b - a for a, b in segs]
-        elif r < 0.68:
+        elif r < 0.68 or (r < 0.80 and subset is None and rng.random() < 0.7):
             conds = [gen_cond(rng, table) for _ in range(rng.choice([1, 1, 1, 2, 2, 3]))]
-            ops.append(['pick', conds])
+            ops.append(['pick', conds, 1] if len(conds) == 1 and rng.random() < 0.2 else ['pick', conds])
             sel = satisfying(list(table.items()), conds)
             if sel is not None and any(sel):
                 subset = numbering(sel)
@@ -488,7 +490,6 @@ def oracle_trace(case, tr):
     stamp = {'is_good': 0}
     clock, pick_clock = 0, -1
     prev = tr['state0']
-    sel_expected = None
 
     def check_metrics(state, where):
         for name, vals in state['metrics']:
@@ -599,7 +600,7 @@ def oracle_trace(case, tr):
             fails.append(('pick_cycle_subset', '%s: raised although cycles satisfy %s' % (where, op[1])))
         check_metrics(st, where)
         # exports
-        if op[0] == 'export' and op[1] in (0, 1, 2):
+        if op[0] == 'export' and op[1] in (0, 1, 2) and not (op[1] == 1 and st['conds'] is None):
             conds = None if op[1] == 0 else (st['conds'] if op[1] == 1 else op[2])
             sel = [True] * K if conds is None else satisfying(st['metrics'], conds)
             if sel is not None:
@@ -647,7 +648,6 @@ def oracle_case(case):
                                 break
                     d = 'step %d %s: cache on gives %s, cache off gives %s' % (n, case['ops'][n][:4], da, db)
                     break
-        mode = ''
         fails.append(('slice-cache', d))
     return fails, trs
 
@@ -697,7 +697,7 @@ def shrink(case, failing, budget=150):
             if len(conds) > 1:
                 for j in range(len(conds)):
                     nc = conds[:j] + conds[j + 1:]
-                    nop = ['pick', nc] if op[0] == 'pick' else ['export', op[1], nc]
+                    nop = ['pick', nc] + op[2:] if op[0] == 'pick' else ['export', op[1], nc]
                     cand = dict(cur, ops=cur['ops'][:i] + [nop] + cur['ops'][i + 1:])
                     budget -= 1
                     if failing(cand):
@@ -797,6 +797,20 @@ def run(ctx):
                 'settings, each run with use_cache=True and False; after the constructor and after EVERY operation the full state '
                 'and the operation\'s result are compared exactly with the model; corpus/C15 first.  '
                 'non-trivial = container with >= 2 cycles and a successful selection or an augmented-mode metric')
+    ctx.notes += [
+        "augmented mode: 'that cycle's samples' is read as the container's own get_inds_of_cycle(ii, mode='augmented') "
+        '(= map_cycle_to_samples_augmented): from the first sample of the previous cycle whose phase exceeds 1.5pi to the end of the '
+        'cycle.  Where no such sample exists (first cycle, previous cycle never passes 1.5pi) the documentation is silent: the model '
+        'says nan (what get_slice_stat_from_samples codes), the oracle demands only that cache on and off agree there.',
+        'selection coherence is read at selection time: subset_vect must be the numbering of the cycles satisfying ALL stored condition '
+        'strings on the metric values of the moment pick_cycle_subset ran; the subset export must list subset_vect\'s cycles as long as '
+        'no metric named by the conditions has been rewritten since; chain timing metrics must describe the current chains until the '
+        'next selection (chain_ind always, because every selection rewrites it).  Staleness after overwriting a metric or re-selecting '
+        'is inherent in the container design and is not reported.',
+        'add_cycle_metric with a wrong length RETURNS a ValueError object instead of raising it: the store stays coherent, so this is '
+        'modelled (out = returned) and not reported.',
+        'literals are spelled so that float() of the text equals the exact rational the model reads (multiples of 1/2 and short decimals): '
+        'no comparison depends on decimal-to-binary rounding.']
     ctx.proof()
     corpus = load_corpus()
     cases = [dict(c, cache=1) for _, c in corpus] + [gen_case(ctx.rng) for _ in range(nrand)]
@@ -860,7 +874,17 @@ def run(ctx):
 def replay(rec):
     case = rec['input']
     if rec.get('kind') == 'correspondence-break':
-        return False
+        ctx = common.Ctx('C15', 'quick', rec.get('seed', 0))
+        try:
+            c = dict(case, cache=case.get('cache', 1))
+            r = render_trace(run_impl(c))
+            m = ctx.model_outputs(IMPORTS, [case_lit(c)], MODEL_EXPR)[0]
+        finally:
+            import shutil
+            shutil.rmtree(ctx.work, ignore_errors=True)
+        k = next((i for i in range(min(len(r), len(m))) if r[i] != m[i]), None)
+        print('implementation and model traces %s' % ('agree' if r == m else 'differ at position %s' % k))
+        return r != m
     fails, _ = oracle_case(dict(case, cache=1))
     for f in fails[:5]:
         print(f)
